@@ -17,6 +17,8 @@ type Control struct {
 	Old    string
 	New    string
 	Expect string // obligation key that must come out violated or undecided
+	Old2   string // optional second substitution in the same file
+	New2   string
 }
 
 type Prop struct {
